@@ -8,6 +8,7 @@ import Flumine.SimLoop
 import Flumine.Lemmas.OrderLemmas
 import Flumine.Lemmas.WorldLemmas
 import Flumine.Lemmas.Final
+import Flumine.Lemmas.Flight
 import Flumine.Betdaq
 import Mathlib.Tactic.Linarith
 namespace Flumine.C03
@@ -513,6 +514,68 @@ theorem blotter_orders_sent_whole_run (cfg : Config) (cl : List Client) (ss : Li
   ((fs_runUpdates M _ us).2 (bi_empty M cfg cl ss)).1.sent
 
 
+/-! ### C03.1 at most one operation per order is outstanding, for whole runs (invariant by induction, `Lemmas/Flight.lean`) -/
+
+/-- the operations waiting in the handler queue between two updates, as the ids of their orders: one entry per
+    queued package that lists the order -/
+def outstanding (w : World) : List Nat := w.queue.flatMap (·.orders)
+
+/-- a placement (even a forced one) of an order that is already in the blotter of the transaction's market is refused -/
+theorem place_refused_in_blotter (w : World) (t : Txn) (oid : Nat) (v : Option Int) (ex : Bool)
+    (h : oid ∈ (w.market! t.market).blotter) : (w.txnPlace t oid v ex true).2.2 = .error .alreadyPlaced := by
+  unfold txnPlace
+  simp only [Bool.not_true, Bool.and_false, Bool.false_eq_true, if_false]
+  have : ((w.modifyOrder oid fun o => { o with client := some t.client }).market! t.market).blotter.contains oid = true :=
+    List.contains_iff_mem.mpr h
+  rw [this]
+  rfl
+
+open Flumine.Fl Flumine.Inv in
+/-- C03 one operation in flight, whole-run: take ANY history - any sequence of updates of any markets, in any
+    interleaving, with any scripted behaviour of any strategies (requests batched or not, forced or not, refused or
+    accepted, on any order), packages executed after their latency, matching, removals, completion loop, closes and
+    re-opens - in which every request went through the market its order was created for (`foreign = 0`; flumine
+    itself does not check that `order.market_id` is the market of the transaction).  Then no order has two
+    operations outstanding, and an order with an outstanding operation rejects every further cancel, update and
+    replace (its guards answer with an error, which changes nothing) and every further placement through its
+    market, forced or not. -/
+theorem one_operation_in_flight_whole_run (cfg : Config) (cl : List Client) (ss : List Strategy)
+    (us : List (Nat × Book × (Nat → List Action)))
+    (hloc : (runUpdates { cfg := cfg, clients := cl, strategies := ss } us).foreign = 0) :
+    (outstanding (runUpdates { cfg := cfg, clients := cl, strategies := ss } us)).Nodup ∧
+    ∀ oid ∈ outstanding (runUpdates { cfg := cfg, clients := cl, strategies := ss } us),
+      (∀ red, isOk ((runUpdates { cfg := cfg, clients := cl, strategies := ss } us).orderCancel oid red) = false) ∧
+      (∀ pers, isOk ((runUpdates { cfg := cfg, clients := cl, strategies := ss } us).orderUpdate oid pers) = false) ∧
+      (∀ price, isOk ((runUpdates { cfg := cfg, clients := cl, strategies := ss } us).orderReplace oid price) = false) ∧
+      (∀ t v ex, t.market = ((runUpdates { cfg := cfg, clients := cl, strategies := ss } us).order! oid).market →
+        ((runUpdates { cfg := cfg, clients := cl, strategies := ss } us).txnPlace t oid v ex true).2.2 = .error .alreadyPlaced) := by
+  have f := fi_reachable cfg cl ss us hloc
+  generalize runUpdates { cfg := cfg, clients := cl, strategies := ss } us = w at f
+  have hp : pendIds w none = outstanding w := by unfold pendIds batchIds queueIds outstanding; simp
+  refine ⟨by rw [← hp]; exact f.nd, fun oid ho => ?_⟩
+  rw [← hp] at ho
+  obtain ⟨a, b, c⟩ := rejected_unless_executable w oid (f.ne oid ho)
+  refine ⟨a, b, c, fun t v ex ht => place_refused_in_blotter w t oid v ex ?_⟩
+  have := f.hm oid ho
+  unfold Home at this
+  rw [ht]; exact this
+
+open Flumine.Fl Flumine.Inv in
+/-- the counter of foreign requests never decreases: a run that ends with `foreign = 0` had `foreign = 0` after each
+    of its updates, so the statement above holds at every update boundary of such a run -/
+theorem one_operation_in_flight_every_prefix (cfg : Config) (cl : List Client) (ss : List Strategy)
+    (past future : List (Nat × Book × (Nat → List Action)))
+    (hloc : (runUpdates { cfg := cfg, clients := cl, strategies := ss } (past ++ future)).foreign = 0) :
+    (outstanding (runUpdates { cfg := cfg, clients := cl, strategies := ss } past)).Nodup := by
+  have happ : runUpdates { cfg := cfg, clients := cl, strategies := ss } (past ++ future) =
+      runUpdates (runUpdates { cfg := cfg, clients := cl, strategies := ss } past) future := by
+    unfold runUpdates; rw [List.foldl_append]
+  rw [happ] at hloc
+  have hle := (fi_runUpdates (runUpdates { cfg := cfg, clients := cl, strategies := ss } past) future).1
+  rw [hloc] at hle
+  exact (one_operation_in_flight_whole_run cfg cl ss past (Nat.le_zero.mp hle)).1
+
+
 /-! ### the Betdaq order class (`BetdaqOrder`, `BetdaqExecution`, `process_betdaq_current_order`) -/
 
 section Bdq
@@ -735,5 +798,16 @@ def nvWorld : World := Inv.runUpdates { clients := [{ id := 0 }], strategies := 
 example : 0 ∈ (nvWorld.market! 1).blotter ∧ (nvWorld.order! 0).status = some .executionComplete ∧
     (nvWorld.order! 0).log = [.pending, .executable, .executionComplete] := by decide +kernel
 example : ((Inv.runUpdates nvWorld nvFuture).order! 0).status = some .executionComplete := by decide +kernel
+
+/-- non-vacuity of `one_operation_in_flight_whole_run`: two orders placed, one package waiting (hypothesis holds, the
+    queue is not empty); and why the hypothesis is there: the same order placed again through ANOTHER market while
+    its placement is in flight is accepted by flumine (the already-placed test looks at the blotter of the
+    transaction's market only) - two operations outstanding for order 0, counted as a foreign request -/
+def nvFlight : World := Inv.runUpdates { clients := [{ id := 0 }], strategies := [{ id := 0, streams := [0], maxLive := 5, multiOrder := true }] }
+  [(1, nvBook 1000, fun _ => [.create nvOrder (some { id := 0, strategy := 0, market := 1, sel := 1 }), .place (.byId 0) none false,
+                              .create { nvOrder with trade := 1 } (some { id := 1, strategy := 0, market := 1, sel := 1 }), .place (.byId 1) none false])]
+example : nvFlight.foreign = 0 ∧ outstanding nvFlight = [0, 1] ∧ (nvFlight.order! 0).status = some .pending := by decide +kernel
+def nvForeign : World := Inv.runUpdates nvFlight [(2, nvBook 1010, fun _ => [.place (.byId 0) none true])]
+example : nvForeign.foreign = 1 ∧ outstanding nvForeign = [0, 1, 0] := by decide +kernel
 
 end Flumine.C03
